@@ -107,8 +107,15 @@ def py_classes(node):
     return out or None
 
 
+def base_of(cls):
+    """A class is "scalar" | "shared" | "percomp", or a PATH ("path", base, kind, n): the tests on var.values are
+    decided for an object of that kind with n placeholders, everything else as for the base class."""
+    return cls[1] if isinstance(cls, tuple) else cls
+
+
 def class_test(test, var, cls):
     """Truth value of a branch test for a variable of class `cls`, or None if the shape is not listed."""
+    cls = base_of(cls)
     scalar = cls == SCALAR
     # var.values == "_"   /   var.values != "_"
     if (isinstance(test, ast.Compare) and len(test.ops) == 1 and is_var_values(test.left, var)
@@ -164,6 +171,8 @@ def class_test(test, var, cls):
 def resolve_test(test, var, cls, scalar_tested):
     """-> bool.  `isinstance(var.values, Sequence)` is true for the string "_" as well: it is accepted only
     after an earlier test of the same chain has sent the scalar class elsewhere."""
+    if isinstance(cls, tuple) and mentions_values(test, var):
+        return bool(ttest_of(test, var)[1](cls[2], cls[3]))
     v = class_test(test, var, cls)
     if v is None:
         fail(test, "branch test is not one of the listed shapes")
@@ -291,7 +300,17 @@ def clin(l):
 
 
 def width_of(cls):
-    return "(WConst 1)" if cls == SCALAR else "WLen"
+    return "(WConst 1)" if base_of(cls) == SCALAR else "WLen"
+
+
+USED_LEN = [False]      # set by at_width_one: the last path executed for the scalar class used len(var.values)
+
+
+def at_width_one(l):
+    """a linear form where the width is the constant 1 (the scalar class; len("_") = 1)"""
+    if l[2]:
+        USED_LEN[0] = True
+    return (l[0] + l[2], l[1], 0)
 
 
 # ------------------------------------------------------------------------------------------ _set_bound
@@ -433,12 +452,9 @@ def set_bound(tree):
         fail(s, "_set_bound: statement before the loop is not a listed shape")
     if not (inits.get(low_acc) and inits.get(high_acc)) or any(not skip_stmt(s) for s in stmts[i + 1:-1]):
         fail(fn, "_set_bound: the two lists must start empty and be returned right after the loop")
-    branches = {}
-    for cls in (SCALAR, SHARED, PERCOMP):
-        try:
-            line = flatten(loop.body, var, cls)
-        except Refused:
-            fail(loop, f"_set_bound refuses every variable of class {cls}")
+    def run(cls):
+        line = flatten(loop.body, var, cls)
+        base = base_of(cls)
         env, got = {}, {}
         for s in line:
             if skip_stmt(s):
@@ -453,7 +469,7 @@ def set_bound(tree):
             # lo, hi = var.boundaries
             if ap and isinstance(ap[0], ast.Tuple) and len(ap[0].elts) == 2 and all(is_name(e) for e in ap[0].elts) \
                     and is_boundaries(ap[1], var):
-                if cls == PERCOMP:
+                if base == PERCOMP:
                     fail(s, "unpacking of 2-D boundaries")
                 for k, e in enumerate(ap[0].elts):
                     env[e.id] = ("num", k, "LNone")
@@ -462,7 +478,7 @@ def set_bound(tree):
                 val = sb_value(ap[1], env, var)
                 if val is None:
                     fail(s, "_set_bound: assignment is not a listed read of var.boundaries")
-                if val[1] == "SColumn" and cls != PERCOMP or val[1] == "SRepeat" and cls == PERCOMP:
+                if val[1] == "SColumn" and base != PERCOMP or val[1] == "SRepeat" and base == PERCOMP:
                     fail(s, "_set_bound: read does not fit the boundaries shape of this class")
                 env[ap[0].id] = val
                 continue
@@ -479,14 +495,22 @@ def set_bound(tree):
         for acc in (low_acc, high_acc):
             v = got[acc]
             if v[0] == "num":
-                if cls != SCALAR:
+                if base != SCALAR:
                     fail(loop, "a list of placeholders contributes a single number")
                 sides.append(f"(mkSide (SUnpack {v[1]}) {v[2]})")
             else:
-                if cls == SCALAR:
+                if base == SCALAR:
                     fail(loop, "a scalar contributes an array")
                 sides.append(f"(mkSide ({v[1]} {v[2]}) {v[3]})")
-        branches[cls] = f"(mkSBranch {sides[0]} {sides[1]})"
+        return f"(mkSBranch {sides[0]} {sides[1]})"
+
+    branches = {}
+    for cls in (SCALAR, SHARED, PERCOMP):
+        try:
+            branches[cls] = run(cls)
+        except Refused:
+            fail(loop, f"_set_bound refuses every variable of class {cls}")
+    branches["tests"] = walk_tree(fn, loop, var, run, branches)
     return branches
 
 
@@ -541,12 +565,10 @@ def convert(tree):
     if not (len(tail) == 1 and isinstance(tail[0], ast.Return) and is_name(tail[0].value, arr)):
         fail(fn, "convert_to_parameters must return the working array right after the loop")
     offs = [k for k, v in env0.items() if v[1:] == (0, 0)]
-    branches, a0 = {}, None
-    for cls in (SCALAR, SHARED):
-        try:
-            line = flatten(loop.body, var, cls)
-        except Refused:
-            fail(loop, f"convert_to_parameters refuses class {cls}")
+    a0s = []
+
+    def run(cls):
+        line = flatten(loop.body, var, cls)
         # a_entry is symbolic for the name(s) initialised before the loop
         res = None
         for a_name in offs:
@@ -604,8 +626,22 @@ def convert(tree):
             int_stmt(s, env, var)
         if env[a_name] != step:
             fail(loop, "the running offset moves differently for logarithmic and linear variables")
-        a0 = env0[a_name][0]
-        branches[cls] = f"(mkCBranch {width_of(cls)} {clin(site[0])} {clin(site[1])} {clin(step)})"
+        a0s.append(env0[a_name][0])
+        forms = (site[0], site[1], step)
+        if base_of(cls) == SCALAR:
+            forms = tuple(at_width_one(f) for f in forms)
+        return f"(mkCBranch {width_of(cls)} {clin(forms[0])} {clin(forms[1])} {clin(forms[2])})"
+
+    branches = {}
+    for cls in (SCALAR, SHARED):
+        try:
+            branches[cls] = run(cls)
+        except Refused:
+            fail(loop, f"convert_to_parameters refuses class {cls}")
+    a0 = a0s[0]
+    if any(a != a0 for a in a0s):
+        fail(loop, "convert_to_parameters: two running offsets")
+    branches["tests"] = walk_tree(fn, loop, var, run, branches, width_only=True)
     return copy, a0, branches
 
 
@@ -643,12 +679,11 @@ def update(tree):
     tail = [s for s in stmts[i + 1:] if not skip_stmt(s)]
     if not (len(tail) == 1 and isinstance(tail[0], ast.Return) and is_name(tail[0].value, target)):
         fail(fn, "update_processor must return the processor it configured right after the loop")
-    branches, a0 = {}, None
-    for cls in (SCALAR, SHARED):
-        try:
-            line = flatten(loop.body, var, cls)
-        except Refused:
-            fail(loop, f"update_processor refuses class {cls}")
+    a0s = []
+
+    def run(cls):
+        line = flatten(loop.body, var, cls)
+        one = at_width_one if base_of(cls) == SCALAR else (lambda l: l)
         res = None
         for a_name in [k for k, v in env0.items() if v[1:] == (0, 0)]:
             env = dict(env0)
@@ -680,11 +715,11 @@ def update(tree):
                     if isinstance(v.slice, ast.Slice):
                         if v.slice.step is not None or v.slice.lower is None or v.slice.upper is None:
                             fail(s, "the slice must be parameter[start:stop]")
-                        sel = f"(USlice {clin(lin_of(v.slice.lower, env, var))} {clin(lin_of(v.slice.upper, env, var))})"
+                        sel = f"(USlice {clin(one(lin_of(v.slice.lower, env, var)))} {clin(one(lin_of(v.slice.upper, env, var)))})"
                         dep = lin_of(v.slice.lower, env, var)[1] or lin_of(v.slice.upper, env, var)[1]
                     else:
                         l = lin_of(v.slice, env, var)
-                        sel, dep = f"(UIndex {clin(l)})", l[1]
+                        sel, dep = f"(UIndex {clin(one(l))})", l[1]
                     continue
                 if int_stmt(s, env, var):
                     continue
@@ -698,8 +733,19 @@ def update(tree):
             # two integer names start at a constant (a, b = 0, 0): the offset is the one the selection uses
             fail(loop, "update_processor: no running offset found")
         a_name, sel, step = res
-        a0 = env0[a_name][0]
-        branches[cls] = f"(mkUBranch {width_of(cls)} {sel} {clin(step)})"
+        a0s.append(env0[a_name][0])
+        return f"(mkUBranch {width_of(cls)} {sel} {clin(one(step))})"
+
+    branches = {}
+    for cls in (SCALAR, SHARED):
+        try:
+            branches[cls] = run(cls)
+        except Refused:
+            fail(loop, f"update_processor refuses class {cls}")
+    a0 = a0s[0]
+    if any(a != a0 for a in a0s):
+        fail(loop, "update_processor: two running offsets")
+    branches["tests"] = walk_tree(fn, loop, var, run, branches)
     return copy, a0, branches
 
 
@@ -1102,6 +1148,11 @@ def ttest_of(test, var):
 KIND_INST = {
     "KUnd": dict(CList=False, CTuple=False, CStr=True, CArr=False, CSeq=True),
     "KList": dict(CList=True, CTuple=False, CStr=False, CArr=False, CSeq=True),
+    "KTuple": dict(CList=False, CTuple=True, CStr=False, CArr=False, CSeq=True),
+    "KStr": dict(CList=False, CTuple=False, CStr=True, CArr=False, CSeq=True),
+    "KArr": dict(CList=False, CTuple=False, CStr=False, CArr=True, CSeq=False),
+    "KSeq": dict(CList=False, CTuple=False, CStr=False, CArr=False, CSeq=True),
+    "KIter": dict(CList=False, CTuple=False, CStr=False, CArr=False, CSeq=False),
 }
 
 
@@ -1137,38 +1188,90 @@ def emit_tree(tree, labels):
     return f"(GIf {tree[1][0]} {emit_tree(tree[2], labels)} {emit_tree(tree[3], labels)})"
 
 
-def walk_tree(fn, loop, var, width_only=False):
-    """-> Coq gtree of one walk: the leaf a "_" reaches does the scalar thing, the leaf a list reaches the vector
-    thing (what those are is read by set_bound / convert / update above); every other leaf raises or does nothing.
+KINDS = ["KUnd", "KList", "KTuple", "KStr", "KArr", "KSeq", "KIter"]
+# canonical objects first: their leaves are labelled by what "_" and a list do
+REPRESENTATIVES = [("KUnd", 1), ("KList", 2)] + [(k, n) for k in KINDS for n in (0, 1, 2) if (k == "KUnd") <= (n == 1)]
+
+
+def leaf_label(run, branches, k, n):
+    """What the walk does on the path an object of kind k with n placeholders takes, compared with what it does
+    for "_" (branches[SCALAR]) and for a list (branches[SHARED])."""
+    from harness.core import TranslationError
+
+    for base, lab in ((SHARED, "OVector"), (SCALAR, "OScalar")):
+        try:
+            USED_LEN[0] = False
+            # the scalar thing: the same forms as for "_" with a width that is the CONSTANT 1
+            if run(("path", base, k, n)) == branches[base] and not (base == SCALAR and USED_LEN[0]):
+                return lab
+        except Refused:
+            return "ORaise"
+        except TranslationError:
+            pass
+    return "OSkip"
+
+
+def walk_tree(fn, loop, var, run, branches, width_only=False):
+    """-> Coq gtree of one walk: its if / elif chains on var.values as a decision tree; every leaf that some
+    container reaches is labelled with what the walk does on that path - the scalar thing (what it does for "_"),
+    the vector thing (what it does for a list), a refusal, or something else (OSkip: no branch taken, nothing
+    assigned, a stale width ...).
     width_only: the walk uses nothing but the number of components (convert_to_parameters, the count of
     __init__); there "_" may share the branch of a list (len("_") = 1 component)."""
     tree = type_tree(loop.body, var, fn)
     ls, lv = tree_leaf(tree, "KUnd", 1), tree_leaf(tree, "KList", 2)
     if ls is lv and not width_only:
         fail(loop, f"{fn.name}: the string \"_\" and a list of placeholders take the same branch")
-    if ls[1] or lv[1]:
-        fail(loop, f"{fn.name}: refuses every scalar or every list of placeholders")
-    return emit_tree(tree, {id(ls[2]): "OScalar", id(lv[2]): "OVector"})
+    labels = {}
+    for k, n in REPRESENTATIVES:
+        leaf = tree_leaf(tree, k, n)
+        if id(leaf[2]) not in labels:
+            labels[id(leaf[2])] = leaf_label(run, branches, k, n)
+    if width_only and ls is lv:
+        labels[id(ls[2])] = "OVector"          # len(var.values) components, 1 for "_"
+    elif labels[id(ls[2])] != "OScalar" or labels[id(lv[2])] != "OVector":
+        fail(loop, f"{fn.name}: the branches of \"_\" and of a list are not told apart")
+    return emit_tree(tree, labels)
 
 
-def type_tests(fd_tree):
-    out = {}
-    for name in ("_set_bound", "convert_to_parameters", "update_processor"):
-        fn = find_func(fd_tree, name, CLS)
-        _, loop, var = loop_over_variables(fn, body_no_doc(fn))
-        out[name] = walk_tree(fn, loop, var, width_only=name == "convert_to_parameters")
-    # __init__: the count of parameters (a loop over self._variables, anywhere at top level of the body)
+def init_count(fd_tree):
+    """__init__: the count of parameters (a loop over self._variables at top level of the body) -> option gtree"""
     init = find_func(fd_tree, "__init__", CLS)
     loops = [s for s in body_no_doc(init) if isinstance(s, ast.For) and is_attr(s.iter, "self", "_variables")]
     if len(loops) > 1:
         fail(loops[1], "__init__: more than one loop over self._variables")
-    if loops:
-        if not is_name(loops[0].target) or loops[0].orelse:
-            fail(loops[0], "__init__: the loop must be `for <var> in self._variables:`")
-        out["__init__"] = f"(Some {walk_tree(init, loops[0], loops[0].target.id, width_only=True)})"
-    else:
-        out["__init__"] = "None"
-    return out
+    if not loops:
+        return "None"
+    loop = loops[0]
+    if not is_name(loop.target) or loop.orelse:
+        fail(loop, "__init__: the loop must be `for <var> in self._variables:`")
+    var = loop.target.id
+
+    def run(cls):
+        one = at_width_one if base_of(cls) == SCALAR else (lambda l: l)
+        env, incs = {}, []
+        for s in flatten(loop.body, var, cls):
+            if skip_stmt(s):
+                continue
+            if isinstance(s, ast.AugAssign) and isinstance(s.op, ast.Add) and is_name(s.target) and s.target.id not in env:
+                incs.append((s.target.id, one(lin_of(s.value, env, var))))     # the counter, bound before the loop
+                continue
+            if int_stmt(s, env, var):
+                continue
+            fail(s, "__init__: statement in the loop over the variables is not a listed shape")
+        if len(incs) != 1:
+            fail(loop, "__init__: the loop over the variables does not move exactly one counter")
+        return incs[0]
+
+    branches = {}
+    for cls in (SCALAR, SHARED):
+        try:
+            branches[cls] = run(cls)
+        except Refused:
+            fail(loop, f"__init__: the count of parameters refuses class {cls}")
+    if branches[SCALAR][1] != (1, 0, 0) or branches[SHARED][1] != (0, 0, 1) or branches[SCALAR][0] != branches[SHARED][0]:
+        fail(loop, "__init__: the count of parameters is not 1 for \"_\" and len(var.values) for a list")
+    return f"(Some {walk_tree(init, loop, var, run, branches, width_only=True)})"
 
 
 CONTAINERS = {"list": "KList", "tuple": "KTuple", "np.array": "KArr", "np.asarray": "KArr", "numpy.array": "KArr"}
@@ -1262,11 +1365,10 @@ def cb(b: bool) -> str:
     return "true" if b else "false"
 
 
-def emit_kinds(norm, tt) -> str:
+def emit_kinds(norm, sb, init, cv, up) -> str:
     return ("Definition src_kinds : kdesc :=\n"
             f"  mkKd {norm}\n"
-            f"    {tt['_set_bound']}\n    {tt['__init__']}\n    {tt['convert_to_parameters']}\n"
-            f"    {tt['update_processor']}.\n")
+            f"    {sb}\n    {init}\n    {cv}\n    {up}.\n")
 
 
 def emit(rows, getter, sb, cv, up, init_copy, fit_conv, rep) -> str:
@@ -1291,7 +1393,8 @@ def translate(repo: Path) -> str:
     up = update(fd)
     init_copy, fit_conv = init_and_fitness(fd)
     rep = reporting(parse(repo, AR), fd)
-    return emit(rows, getter, sb, cv, up, init_copy, fit_conv, rep) + emit_kinds(convert_values_norm(pv), type_tests(fd))
+    return emit(rows, getter, sb, cv, up, init_copy, fit_conv, rep) + \
+        emit_kinds(convert_values_norm(pv), sb["tests"], init_count(fd), cv[2]["tests"], up[2]["tests"])
 
 
 # the description of the unchanged tree; used only to keep a model available for the failing-input search
